@@ -3,7 +3,8 @@
 From Coq Require Import String.
 From Coq Require Import List Ascii ZArith Bool Lia.
 From CGV Require Import Base.PyBase Base.PyVal Base.NxGraph Resolve.Bonding Resolve.GraphOps Resolve.Pipeline
-     Resolve.MapDefs Resolve.Witness Resolve.MapProofs Resolve.CopyProofs Resolve.PipelineFull Resolve.FragidProofs Resolve.EdgeCopy Resolve.EdgeCopyGen Resolve.BondedCopy Resolve.BondingDefs Resolve.WfMerged Resolve.CoarseCopy Resolve.AllAtomCopy Resolve.SquashedCopy.
+     Resolve.MapDefs Resolve.Witness Resolve.MapProofs Resolve.CopyProofs Resolve.PipelineFull Resolve.FragidProofs Resolve.EdgeCopy Resolve.EdgeCopyGen Resolve.BondedCopy Resolve.BondingDefs Resolve.WfMerged Resolve.CoarseCopy Resolve.AllAtomCopy Resolve.SquashedCopy Resolve.SquashedReturned.
+From CGV Require Hydro.NumTotal Dialect.ReturnedCar.
 From CGV Require Hydro.QuotientDefs.
 From CGV Require Compose.RebuildWf Hydro.Hydrogens.
 From CGV Require Hydro.Squash Gen.HydroGen.
@@ -259,6 +260,99 @@ Theorem C02_step_squashed_bonds : forall legacy aa fd prev car fo, tmpl_dict fd 
        QuotientDefs.rho (fo_m2 fo) (cf a) = QuotientDefs.rho (fo_m2 fo) (cf b) \/
        has_edge (fo_m3 fo) (QuotientDefs.rho (fo_m2 fo) (cf a)) (QuotientDefs.rho (fo_m2 fo) (cf b)) = true).
 Proof. exact step_squashed_bonds. Qed.
+(** ---- the RETURNED graphs of steps that DO squash atoms (Resolve/SquashedReturned.v): coarse and all-atom steps, arbitrary
+    dictionary of well-formed templates with dict-like attribute lists and numeric hydrogen counts (NumTotal.hnum_dict), arbitrary
+    coarse graph whose base edges join different coarse nodes, ANY aromaticity transcript the contract accepts (without
+    'rs_isomer').  There is an embedding sg of the squashed graph fo_m3 into the returned graph (injective, adjacency preserved:
+    the tail of the step - transcript, hydrogen completion, sort, E/Z, names - only renumbers and adds hydrogens), and for every
+    coarse node with a fragment a map cf0 of its template atoms into the bonded graph such that, with r = the class representative
+    of the `!` classes: EVERY template atom n has ONE image sg (r (cf0 n)) in the returned graph; the image's fragid list contains
+    the coarse key and its mapping list the pair (fragname, n); every entry of the image's fragid list is the (single) coarse key
+    of a member of the same class - a merged atom lists every coarse key of its class and nothing else; a template atom whose copy
+    is the survivor of its class keeps every attribute the step does not write ([written_keys_sq] = 'contraction' + written_keys);
+    images of bonded template atoms are equal or adjacent, and two images are adjacent only if members of their classes were
+    bonded in the bonded graph. *)
+Theorem C02_tail_embeds_squashed : forall aa car meta m3 m4 m5 m6 f6 m7 f7,
+  SquashDefs.wf_graph m3 -> ReturnedCar.dicts m3 -> (forall n, In n m3 -> aget (S "fragid") (na n) <> None) ->
+  (aa = true -> forall g1, car = Some g1 -> RebuildWf.all_no_rs g1) ->
+  (if aa then Hydrogens.rebuild_h_atoms_default m3 car else Ok m3) = Ok m4 ->
+  sort_nodes_by_attr m4 = Ok m5 ->
+  (if aa then Stereo.EzImpl.annotate_ez_isomers_cgsmiles m5 else Ok m5) = Ok m6 ->
+  (if aa then set_atom_names m6 meta f6 else Ok (m6, f6)) = Ok (m7, f7) ->
+  exists sg : Z -> Z,
+    (forall x y, In x (node_keys m3) -> In y (node_keys m3) -> sg x = sg y -> x = y) /\
+    (forall x key v, In x (node_keys m3) -> ~ In key tail_keys -> node_get m3 x key = Some v -> node_get m7 (sg x) key = Some v) /\
+    (forall x y, In x (node_keys m3) -> In y (node_keys m3) -> has_edge m7 (sg x) (sg y) = has_edge m3 x y).
+Proof. exact tail_embed. Qed.
+Theorem C02_squash_keeps_dicts : forall g g', ReturnedCar.dicts g -> Squash.squash_atoms g = Ok g' -> ReturnedCar.dicts g'.
+Proof. exact dicts_squash. Qed.
+(** an entry in the membership list of a class survivor stems from a member of its class (converse of hydro's merged_lists_incl) *)
+Theorem C02_merged_lists_from : forall plan, NoDup (map snd plan) -> forall (F : Z -> list pyval) y v, ~ In y (map snd plan) ->
+  In v (QuotientDefs.merged_lists F plan y) -> exists k, In v (F k) /\ SquashDefs.sq_pass (QuotientDefs.plan_sq plan) k = y.
+Proof. exact merged_lists_from. Qed.
+Theorem C02_step_squashed_returned : forall legacy aa fd prev car fo, tmpl_dict fd -> wf_attrs fd -> NumTotal.hnum_dict fd ->
+  resolve_step_full legacy aa fd prev car = Ok fo ->
+  (forall es, base_edges (fo_meta fo) = Ok es -> wf_edges es) ->
+  (aa = true -> forall g1, car = Some g1 -> RebuildWf.all_no_rs g1) ->
+  exists sg : Z -> Z,
+    (forall x y, In x (node_keys (fo_m3 fo)) -> In y (node_keys (fo_m3 fo)) -> sg x = sg y -> x = y) /\
+    (forall x y, In x (node_keys (fo_m3 fo)) -> In y (node_keys (fo_m3 fo)) -> has_edge (fo_mol fo) (sg x) (sg y) = has_edge (fo_m3 fo) x y) /\
+    forall pre mn post fv name frag, fo_meta fo = (pre ++ mn :: post)%list ->
+    aget (S "fragname") (na mn) = Some fv -> lookup_fragment fd fv = Some (name, frag) ->
+    exists cf0 : Z -> Z,
+      (forall a b, In a (node_keys frag) -> In b (node_keys frag) -> cf0 a = cf0 b -> a = b) /\
+      (forall n, In n frag ->
+         In (cf0 (nk n)) (node_keys (fo_m2 fo)) /\ In (QuotientDefs.rho (fo_m2 fo) (cf0 (nk n))) (node_keys (fo_m3 fo)) /\
+         exists l lm,
+           node_get (fo_mol fo) (sg (QuotientDefs.rho (fo_m2 fo) (cf0 (nk n)))) (S "fragid") = Some (VList l) /\ In (VInt (nk mn)) l /\
+           node_get (fo_mol fo) (sg (QuotientDefs.rho (fo_m2 fo) (cf0 (nk n)))) (S "mapping") = Some (VList lm) /\ In (mapping_entry name (nk n)) lm /\
+           (forall v, In v l -> exists p, In p (node_keys (fo_m2 fo)) /\ QuotientDefs.rho (fo_m2 fo) p = QuotientDefs.rho (fo_m2 fo) (cf0 (nk n)) /\
+                                         node_get (fo_m2 fo) p (S "fragid") = Some (VList [v])) /\
+           (QuotientDefs.rho (fo_m2 fo) (cf0 (nk n)) = cf0 (nk n) -> forall key v, ~ In key written_keys_sq -> aget key (na n) = Some v ->
+              node_get (fo_mol fo) (sg (cf0 (nk n))) key = Some v)) /\
+      (forall a b, In a (node_keys frag) -> In b (node_keys frag) -> has_edge frag a b = true ->
+         QuotientDefs.rho (fo_m2 fo) (cf0 a) = QuotientDefs.rho (fo_m2 fo) (cf0 b) \/
+         has_edge (fo_mol fo) (sg (QuotientDefs.rho (fo_m2 fo) (cf0 a))) (sg (QuotientDefs.rho (fo_m2 fo) (cf0 b))) = true) /\
+      (forall a b, In a (node_keys frag) -> In b (node_keys frag) ->
+         has_edge (fo_mol fo) (sg (QuotientDefs.rho (fo_m2 fo) (cf0 a))) (sg (QuotientDefs.rho (fo_m2 fo) (cf0 b))) = true ->
+         exists p q, QuotientDefs.rho (fo_m2 fo) p = QuotientDefs.rho (fo_m2 fo) (cf0 a) /\
+                     QuotientDefs.rho (fo_m2 fo) q = QuotientDefs.rho (fo_m2 fo) (cf0 b) /\ has_edge (fo_m2 fo) p q = true).
+Proof. exact step_squashed_returned. Qed.
+(** non-vacuity: {[#A][#B]}.{#A=[#X][#Y][!],#B=[!][#Y][#Z]} (coarse): the dictionary satisfies the three hypotheses on it, the
+    base edge joins different coarse nodes, the step returns, squashes (4 atoms before, 3 after) and the shared atom comes back
+    listing both coarse keys *)
+Definition fd_SQ02 : fragdict :=
+  [(S "A", [tnode 0 "A" "X" [] [(1, 1)]; tnode 1 "A" "Y" ["!1"%string] [(0, 1)]]);
+   (S "B", [tnode 0 "B" "Y" ["!1"%string] [(1, 1)]; tnode 1 "B" "Z" [] [(0, 1)]])].
+Example C02_step_squashed_returned_nonvacuous :
+  tmpl_dict fd_SQ02 /\ wf_attrs fd_SQ02 /\ NumTotal.hnum_dict fd_SQ02 /\
+  match base_edges base_AB with Ok es => forallb (fun e => negb (Z.eqb (fst (fst e)) (snd (fst e)))) es | Err _ => false end = true /\
+  match resolve_step_full true false fd_SQ02 base_AB None with
+  | Ok fo => Nat.eqb (length (fo_m2 fo)) 4 && Nat.eqb (length (fo_m3 fo)) 3 && Nat.eqb (length (fo_mol fo)) 3 &&
+             existsb (fun n => match aget (S "fragid") (na n) with Some (VList [VInt 0; VInt 1]) => true | _ => false end) (fo_mol fo)
+  | Err _ => false end = true.
+Proof.
+  split; [|split; [|split; [|split; vm_compute; reflexivity]]].
+  - intros name g H. cbn [fd_get fd_SQ02] in H.
+    destruct (str_eqb name (S "A")).
+    { inversion H; subst; clear H. split.
+      - apply SquashProofs.wf_graphb_sound. vm_compute. reflexivity.
+      - intros n [<-|[<-|[]]]; cbn; repeat constructor; intuition.
+      - intros a b. unfold edge_attrs. cbn [gfind tnode nk nadj map fst snd].
+        repeat match goal with |- context [Z.eqb ?x ?y] => destruct (Z.eqb_spec x y); subst; try congruence; cbn [adj_get gfind nk nadj tnode map fst snd] end; reflexivity. }
+    destruct (str_eqb name (S "B")); [|discriminate].
+    inversion H; subst; clear H. split.
+    + apply SquashProofs.wf_graphb_sound. vm_compute. reflexivity.
+    + intros n [<-|[<-|[]]]; cbn; repeat constructor; intuition.
+    + intros a b. unfold edge_attrs. cbn [gfind tnode nk nadj map fst snd].
+      repeat match goal with |- context [Z.eqb ?x ?y] => destruct (Z.eqb_spec x y); subst; try congruence; cbn [adj_get gfind nk nadj tnode map fst snd] end; reflexivity.
+  - intros name g H n Hn. cbn [fd_get fd_SQ02] in H.
+    destruct (str_eqb name (S "A")); [inversion H; subst; cbn in Hn; destruct Hn as [<-|[<-|[]]]; repeat constructor; cbn; intuition discriminate|].
+    destruct (str_eqb name (S "B")); [inversion H; subst; cbn in Hn; destruct Hn as [<-|[<-|[]]]; repeat constructor; cbn; intuition discriminate|discriminate].
+  - intros name g H n Hn. cbn [fd_get fd_SQ02] in H.
+    destruct (str_eqb name (S "A")); [inversion H; subst; cbn in Hn; destruct Hn as [<-|[<-|[]]]; vm_compute; exact I|].
+    destruct (str_eqb name (S "B")); [inversion H; subst; cbn in Hn; destruct Hn as [<-|[<-|[]]]; vm_compute; exact I|discriminate].
+Qed.
 (** ---- the RETURNED graph of an ALL-ATOM step (Resolve/AllAtomCopy.v): arbitrary dictionary of well-formed templates with dict-like
     attribute lists (wf_attrs), arbitrary coarse graph whose base edges join different coarse nodes, ANY aromaticity transcript g1
     that Hydro's contract accepts and that carries no 'rs_isomer' attribute, no atoms squashed: every coarse node with a fragment
@@ -352,6 +446,10 @@ Print Assumptions C02_step_coarse_copy.
 Print Assumptions C02_step_allatom_copy.
 Print Assumptions C02_step_squash_quotient.
 Print Assumptions C02_step_squashed_bonds.
+Print Assumptions C02_tail_embeds_squashed.
+Print Assumptions C02_squash_keeps_dicts.
+Print Assumptions C02_merged_lists_from.
+Print Assumptions C02_step_squashed_returned.
 Print Assumptions C02_frag_exact.
 Print Assumptions C02_frag_cover.
 Print Assumptions C02_fragid_singleton.
@@ -385,3 +483,37 @@ Proof.
   - repeat constructor; cbn; exact I.
 Qed.
 Print Assumptions C02_merge_model_is_source.
+
+(** ---- source tie: annotate_fragments.  The source ASSIGNS the new fragment graph to the 'graph' attribute of every
+    coarse node; the coarse graph's store of fragment graphs (kept beside it, as in the models) is updated key by key
+    with the list the model returns, and IS that list when the store was empty or had one entry per coarse node in
+    node order (what resolve_disconnected leaves).  Hypothesis: the 'fragid' values are lists/tuples of ints, str or None,
+    or not iterable at all (SourceTie.fragid_ok; a str/dict value, a bool/float or unhashable entry are treated
+    differently by the hand-written model). *)
+Theorem C02_annotate_model_is_source : forall meta fgs0 mol, SourceTie.fragids_modelled mol ->
+  GraphUtilsGen.gen_annotate_fragments meta fgs0 mol
+  = (new <- GraphOps.annotate_fragments meta mol ;; Ok (fold_left (fun s kg => fg_set (fst kg) (snd kg) s) new fgs0, meta)).
+Proof. exact SourceTie.annotate_is_source. Qed.
+Theorem C02_annotate_model_is_source_inplace : forall meta fgs0 mol, NoDup (node_keys meta) -> map fst fgs0 = node_keys meta ->
+  SourceTie.fragids_modelled mol ->
+  GraphUtilsGen.gen_annotate_fragments meta fgs0 mol = (new <- GraphOps.annotate_fragments meta mol ;; Ok (new, meta)).
+Proof. exact SourceTie.annotate_is_source_inplace. Qed.
+Theorem C02_annotate_model_is_source_fresh : forall meta mol, NoDup (node_keys meta) -> SourceTie.fragids_modelled mol ->
+  GraphUtilsGen.gen_annotate_fragments meta [] mol = (new <- GraphOps.annotate_fragments meta mol ;; Ok (new, meta)).
+Proof. exact SourceTie.annotate_is_source_fresh. Qed.
+Example C02_annotate_model_is_source_nonvacuous :
+  let mol := add_edge (add_node (add_node (add_node gempty 0 [(S "fragid", VList [VInt 0])]) 1 [(S "fragid", VList [VInt 0; VInt 1])])
+                                2 [(S "fragid", VList [VInt 1])]) 0 1 [(S "order", VInt 1)] in
+  let meta := add_node (add_node gempty 0 []) 1 [] in
+  SourceTie.fragids_modelled mol /\ NoDup (node_keys meta) /\
+  match GraphOps.annotate_fragments meta mol with
+  | Ok new => map (fun kg => (fst kg, node_keys (snd kg), edges_list (snd kg))) new = [(0, [0; 1], [(0, 1)]); (1, [1; 2], [])]
+  | Err _ => False
+  end.
+Proof.
+  cbv zeta. split; [|split; [repeat constructor; cbn; intuition discriminate|vm_compute; reflexivity]].
+  repeat constructor; cbn; repeat constructor.
+Qed.
+Print Assumptions C02_annotate_model_is_source.
+Print Assumptions C02_annotate_model_is_source_inplace.
+Print Assumptions C02_annotate_model_is_source_fresh.
